@@ -5,3 +5,4 @@ import ArimProofs.C20
 import ArimProofs.C18
 import ArimProofs.C14
 import ArimProofs.C02
+import ArimProofs.C12
